@@ -31,7 +31,11 @@ ASSUMPTIONS = ["tone bins are at least 3 bins apart (for a real sinusoid at bin 
                "many-tone records (K >= 5) are kept only when the K-th singular value of the forward-backward matrix exceeds 1e-5 of "
                "the largest (closely packed tones over a short record are numerically rank deficient in double precision; the "
                "'exactly K non-negligible' clause uses the line 1e-8)",
-               "NFFT >= P (the functions reject NFFT < P); the default NFFT of the functions is 4096, of the classes the data length"]
+               "NFFT >= P (the functions reject NFFT < P); the default NFFT of the functions is 4096, of the classes the data length",
+               "numeric types of P / NSIG / NFFT / threshold: only the (argument, type) pairs the unchanged tree accepts are generated "
+               "(measured under NumPy 2.5: an unsigned P raises OverflowError, an int8 P only works while N <= 127 and N - P <= 63, the "
+               "classes reject a 0-d array as NFFT, a float NSIG raises TypeError); an accepted type must give the result of the python "
+               "int / float of the same value (bit-identical on the unchanged tree; compared at 1e-12 per entry)"]
 RULE = ("noiseless sums of K distinct on-grid complex exponentials (K 1..15, incl. bins 0 and +-NFFT/2) or K/2 real sinusoids (K/2 "
         "1..7, incl. bins 1, 2, NFFT/2-2, NFFT/2-1), random amplitudes/phases, N in 2P..128 (and N - P > 100), P in K+1..16 (P = K+1 "
         "over-weighted), NFFT even/odd and the default 4096, music and ev, functions and classes (.psd, .frequencies(), "
@@ -39,7 +43,16 @@ RULE = ("noiseless sums of K distinct on-grid complex exponentials (K 1..15, inc
         "scale_by_freq; sampling) for the model correspondence and the class fold; argument-validation cases; low-noise records "
         "on which the AIC, MDL dimensions and P-1 differ; thresholds 1, 1.5, 3, 10, 1e9; eigcrit: sorted positive singular-value "
         "lists (n 2..12 and 40..100, k signal values 0.5..4 decades above a noise floor with 30 % spread, amplitudes 1, 2^-30, 2^25) "
-        "through aic_eigen / mdl_eigen / _get_signal_space against the model, and re-scaled by t, 2^-20, 2^20 (same dimension)")
+        "through aic_eigen / mdl_eigen / _get_signal_space against the model, and re-scaled by t, 2^-20, 2^20 (same dimension); "
+        "the numeric TYPE of the integer arguments: P, NSIG and NFFT as numpy scalars int8..int64, uint8..uint64, intp, uintp, as "
+        "elements of an integer numpy.arange (an order sweep) and as 0-d integer arrays -- every (argument, type) pair the unchanged "
+        "tree accepts (unsigned P and 0-d NFFT of the classes are rejected there and not generated) -- in the noiseless tone cases "
+        "(peaks, positivity, finiteness away from the true bins, same values as the python-int call), in the psd / class / valid "
+        "correspondence cases (the model gets the python ints), and kind 'argtype': one record x one entry point (eigen, music / "
+        "ev, pmusic / pev) x every accepted type of each argument, all three at once, a dimension sweep over "
+        "numpy.arange(0, P, dtype), thresholds as python int / float16 / float32 / longdouble / integer scalars / 0-d arrays "
+        "against the python float, integral floats as NSIG (rejected, or the int result), out-of-range NSIG in numpy types (ValueError); "
+        "tones: every entry 2 or more bins away from all true bins is finite")
 
 
 def _sp():
@@ -122,13 +135,100 @@ def _as_input(p):
     return x
 
 
-def _sel_kw(p):
-    """keyword arguments selecting the subspace rule of a 'class' case"""
+# ---- the numeric TYPE in which the integer arguments P, NSIG, NFFT (and the threshold) are handed over -------------------
+# A case may carry p["types"] = {"P": t, "nsig": t, "nfft": t, "threshold": t}; the VALUES in the params stay python ints /
+# floats (replays are JSON), the typed object is built at call time by `_ty`.  Type names: "int8" .. "uint64", "intp", "uintp"
+# (numpy scalars), "arange:<dtype>" (an element of numpy.arange(.., dtype): what an order / dimension sweep hands over),
+# "0d:<dtype>" (0-d array), "float" / "float32" / "float64" / "float16" / "longdouble" / "int" (python / numpy scalars).
+# The lists below are what the UNCHANGED tree accepts (measured, NumPy 2.5: 6 x 3 entry points x every type, and 60 records x
+# 7 thresholds x 10 types): the result was bit-identical to the python-int (python-float) call in every accepted case.
+#   NSIG : every integer scalar type and every 0-d integer array, all five entry points (floats: TypeError)
+#   P    : signed types only (an unsigned P raises OverflowError inside the data-matrix loops: rejected, not generated);
+#          int8 only while N <= 127 and N - P <= 63 (beyond that N - P / 2*(N-P) leave int8: OverflowError / AssertionError)
+#   NFFT : every integer scalar type that holds the value; 0-d arrays for the functions only (the classes reject them: ValueError)
+#   threshold : python int, numpy float16/32, longdouble, integer scalars, 0-d arrays
+_SCALARS = ["int8", "int16", "int32", "int64", "uint8", "uint16", "uint32", "uint64", "intp", "uintp"]
+NSIG_TYPES = _SCALARS + ["arange:uint8", "arange:uint16", "arange:uint32", "arange:int64", "0d:int64", "0d:uint8", "0d:int32", "0d:uint64"]
+P_TYPES = ["int8", "int16", "int32", "int64", "intp", "arange:int64", "arange:int16", "0d:int64", "0d:int32"]
+NFFT_TYPES = NSIG_TYPES
+UNSIGNED = ["uint8", "uint16", "uint32", "uint64", "uintp", "arange:uint8", "arange:uint16", "arange:uint32", "0d:uint8", "0d:uint64"]
+THR_TYPES = ["int", "float32", "float16", "longdouble", "int64", "uint8", "int8", "0d:float64", "0d:float32", "0d:int64"]
+FLOAT_TYPES = ["float", "float32", "float64", "0d:float64"]
+# a typed result against the python-int result of the same value: bit-identical in every measured case (worst deviation 0);
+# the comparison allows 1e-12 per entry (the line the module uses for 'the same rule through another entry point')
+TYPE_RTOL = 1e-12
+
+
+def _ty(v, t):
+    """the value v as an object of the type named t"""
+    if t is None:
+        return v
+    if t == "int":
+        return int(v)
+    if t == "float":
+        return float(v)
+    if t.startswith("0d:"):
+        return np.array(v, dtype=t[3:])
+    if t.startswith("arange:"):
+        return np.arange(int(v), int(v) + 1, dtype=t[7:])[0]
+    return np.dtype(t).type(v)
+
+
+def _fits(v, t, what=None, N=None, P=None, cls=False):
+    """can the value be held by the type, and is the (argument, type) pair one the unchanged tree accepts"""
+    if t is None:
+        return True
+    d = t.split(":")[-1]
+    if d in ("int", "float"):
+        return True
+    dt = np.dtype(d)
+    if dt.kind in "iu" and not (np.iinfo(dt).min <= v <= np.iinfo(dt).max):
+        return False
+    if dt.kind in "iu" and v != int(v):
+        return False
+    if what == "P":
+        if dt.kind == "u":
+            return False
+        if d == "int8" and not (N is not None and N <= 127 and N - v <= 63):
+            return False
+    if what == "nfft" and cls and t.startswith("0d:"):
+        return False
+    return True
+
+
+def _targs(p, cls=False):
+    """(P, NSIG or K, NFFT) in the types named by p['types'] (python ints without); for the classes a 0-d NFFT (which they
+    reject) is handed over as the numpy scalar of the same dtype"""
+    ty = p.get("types") or {}
+    ns = p.get("nsig", p.get("K"))
+    nf = p.get("nfft")
+    tn = ty.get("nfft")
+    if cls and tn and tn.startswith("0d:"):
+        tn = tn[3:]
+    return (_ty(p["P"], ty.get("P")), None if ns is None else _ty(ns, ty.get("nsig")), None if nf is None else _ty(nf, tn))
+
+
+def _same_psd(a, b, rtol=TYPE_RTOL):
+    """two pseudo-spectra agree entry by entry (non-finite entries -- exact zeros of a noiseless denominator -- at the same places)"""
+    a, b = np.asarray(a, dtype=float), np.asarray(b, dtype=float)
+    if a.shape != b.shape or np.any(np.isnan(a)) or np.any(np.isnan(b)):
+        return False
+    fa, fb = np.isfinite(a), np.isfinite(b)
+    if not np.array_equal(fa, fb) or not np.array_equal(a[~fa], b[~fb]):
+        return False
+    if np.any(b[fb] == 0):
+        return bool(np.array_equal(a[fa], b[fb]))
+    return bool(np.all(np.abs(a[fa] / b[fb] - 1.0) <= rtol))
+
+
+def _sel_kw(p, typed=False):
+    """keyword arguments selecting the subspace rule of a 'class' case (typed: in the types named by p['types'])"""
     kw = {}
+    ty = (p.get("types") or {}) if typed else {}
     if p.get("nsig") is not None:
-        kw["NSIG"] = p["nsig"]
+        kw["NSIG"] = _ty(p["nsig"], ty.get("nsig"))
     if p.get("threshold") is not None:
-        kw["threshold"] = p["threshold"]
+        kw["threshold"] = _ty(p["threshold"], ty.get("threshold"))
     if p.get("criteria") is not None:
         kw["criteria"] = p["criteria"]
     return kw
@@ -139,7 +239,8 @@ def _sel_kw(p):
 def impl_psd(p):
     sp = _sp()
     f = sp.music if p["method"] == "music" else sp.ev
-    psd, S = f(_as_input(p), p["P"], NSIG=p["nsig"], NFFT=p["nfft"])
+    Pt, nt, ft = _targs(p)
+    psd, S = f(_as_input(p), Pt, NSIG=nt, NFFT=ft)
     return [np.asarray(psd)]
 
 
@@ -171,10 +272,11 @@ def post_fb(p, iv, mv):
 def impl_class(p):
     sp = _sp()
     cls = sp.pmusic if p["method"] == "music" else sp.pev
-    kw = _sel_kw(p)
+    kw = _sel_kw(p, typed=True)
     if p.get("sbf"):
         kw["scale_by_freq"] = True
-    o = cls(_as_input(p), p["P"], NFFT=p["nfft"], sampling=p.get("fs", 1.0), **kw)
+    Pt, _nt, ft = _targs(p, cls=True)
+    o = cls(_as_input(p), Pt, NFFT=ft, sampling=p.get("fs", 1.0), **kw)
     return [np.asarray(o.psd), np.asarray(o.eigenvalues)]
 
 
@@ -220,7 +322,10 @@ def oracle_class(p):
     f = sp.music if method == "music" else sp.ev
     kw = _sel_kw(p)
     fs = p.get("fs", 1.0)
-    o = cls(_as_input(p), P, NFFT=p["nfft"], sampling=fs, scale_by_freq=bool(p.get("sbf")), **kw)
+    # (a case with p['types'] hands P / NSIG / NFFT / threshold to the class in those types; the function reference below and
+    # the definition get the python ints of the same values)
+    Pt, _nt, ft = _targs(p, cls=True)
+    o = cls(_as_input(p), Pt, NFFT=ft, sampling=fs, scale_by_freq=bool(p.get("sbf")), **_sel_kw(p, typed=True))
     cp = np.asarray(o.psd)
     ev = np.asarray(o.eigenvalues)
     fpsd, S = f(_as_input(p), P, NFFT=nfft, **kw)
@@ -254,6 +359,11 @@ def oracle_class(p):
 
 # ---- oracle ----------------------------------------------------------------------------------------
 
+def _types_text(p):
+    ty = p.get("types") or {}
+    return ", ".join("%s as %s" % ({"nsig": "NSIG", "nfft": "NFFT"}.get(k, k), ty[k]) for k in sorted(ty) if ty[k])
+
+
 def _local_max(psd, circular):
     n = len(psd)
     idx = []
@@ -283,10 +393,23 @@ def oracle_tones(p):
     # tones 2 bins apart carry peaks=False and are evaluated on the positivity / singular-value clauses only
     peaks = p.get("peaks", True) and _min_sep(p["bins"], nfft) >= 3
     real = np.isrealobj(x)
+    # the order, the dimension and NFFT in the numeric types named by p['types'] (python ints without)
+    typed = bool(p.get("types"))
+    Pt, Kt, nfft_t = _targs(p)
+    _Pc, _Kc, nfft_c = _targs(p, cls=True)
     for method in ("music", "ev"):
         f = sp.music if method == "music" else sp.ev
         with np.errstate(all="ignore"):
-            psd, S = f(p["x"], P, NSIG=K, NFFT=nfft)
+            psd, S = f(p["x"], Pt, NSIG=Kt, NFFT=nfft_t)
+            if typed:
+                psd_i, S_i = f(p["x"], P, NSIG=K, NFFT=nfft)
+                if not _same_psd(psd, psd_i) or not np.array_equal(np.asarray(S), np.asarray(S_i)):
+                    out.append("%s with %s differs from the call with the python ints of the same values (P=%d, NSIG=%d, NFFT=%d)" % (
+                        method, _types_text(p), P, K, nfft))
+                e = np.asarray(sp.eigen(p["x"], Pt, NSIG=Kt, NFFT=nfft_t, method=method)[0])
+                if not _same_psd(e, psd_i):
+                    out.append("eigen(method=%r) with %s differs from %s with the python ints of the same values (P=%d, NSIG=%d, NFFT=%d)" % (
+                        method, _types_text(p), method, P, K, nfft))
         psd, S = np.asarray(psd), np.asarray(S)
         if len(psd) != nfft:
             out.append("%s returned %d values for NFFT=%d" % (method, len(psd), nfft))
@@ -305,6 +428,12 @@ def oracle_tones(p):
         # function output is centre-DC ordered: index j has frequency bin j - NFFT//2
         finite = np.where(np.isfinite(psd), psd, np.inf)
         exp = sorted(b % nfft for b in p["bins"])
+        # 'finite wherever the noise-subspace projection does not vanish': it vanishes at the K true bins only (an infinite value
+        # needs a denominator that is exactly 0.0), so every entry 2 or more bins away from all of them is finite
+        far = [j for j in range(nfft) if all(min((j - nfft // 2 - e) % nfft, (e - j + nfft // 2) % nfft) >= 2 for e in exp)]
+        if far and not np.all(np.isfinite(psd[far])):
+            out.append("%s pseudo-spectrum is not finite at %d of the %d bins 2 or more bins away from every true frequency (NFFT=%d, P=%d, K=%d%s)" % (
+                method, int(np.sum(~np.isfinite(psd[far]))), len(far), nfft, P, K, (", " + _types_text(p)) if typed else ""))
         if peaks:
             lm = _local_max(finite, True)
             lm = sorted(lm, key=lambda i: -finite[i])[:K]
@@ -325,8 +454,10 @@ def oracle_tones(p):
         # class output: the maximum sits at the entry whose reported frequency is a true frequency
         cls = sp.pmusic if method == "music" else sp.pev
         with np.errstate(all="ignore"):
-            o = cls(p["x"], P, NSIG=K, NFFT=nfft, sampling=2.0)
+            o = cls(p["x"], _Pc, NSIG=_Kc, NFFT=nfft_c, sampling=2.0)
             cp = np.asarray(o.psd)
+        if typed and not _same_psd(cp, ref_fold(psd, real, nfft)):
+            out.append("%s class with %s: .psd is not the fold of the function output" % (method, _types_text(p)))
         fr = np.asarray(o.frequencies())
         ev = np.asarray(o.eigenvalues)
         if not np.array_equal(ev, S):
@@ -358,7 +489,7 @@ def oracle_tones(p):
         if p.get("default_nfft") and peaks:
             # NFFT omitted: the documented default of the functions is 4096 points
             with np.errstate(all="ignore"):
-                psd4 = np.asarray(f(p["x"], P, NSIG=K)[0])
+                psd4 = np.asarray(f(p["x"], Pt, NSIG=Kt)[0])
             if len(psd4) != 4096:
                 out.append("%s without NFFT returned %d values (documented default 4096)" % (method, len(psd4)))
             else:
@@ -488,16 +619,140 @@ def oracle_validate(p):
     return out
 
 
+# ---- the numeric type of P / NSIG / NFFT / threshold: every accepted type gives the python-int result --------------------------
+
+def oracle_argtype(p):
+    """one record (noiseless on-grid tones with NSIG = K, or tones in noise), one entry point, one method: P, NSIG and NFFT in
+    every integer type the unchanged tree accepts (one argument at a time, and all three at once), a dimension sweep
+    `for k in numpy.arange(0, P, dtype=t)`, thresholds in other numeric types, integral floats as NSIG, out-of-range NSIG in
+    numpy types.  A type that is accepted gives the pseudo-spectrum and the singular values of the python int of the same value."""
+    sp = _sp()
+    x = np.asarray(p["x"])
+    P, nsig, nfft, method, entry = p["P"], p["nsig"], p["nfft"], p["method"], p["entry"]
+    N = len(x)
+    iscls = entry == "class"
+    real = np.isrealobj(x)
+
+    def call(Pv, nfv, **kw):
+        with np.errstate(all="ignore"):
+            if entry == "eigen":
+                r = sp.eigen(p["x"], Pv, NFFT=nfv, method=method, **kw)
+                return np.asarray(r[0]), np.asarray(r[1])
+            if entry == "func":
+                r = (sp.music if method == "music" else sp.ev)(p["x"], Pv, NFFT=nfv, **kw)
+                return np.asarray(r[0]), np.asarray(r[1])
+            o = (sp.pmusic if method == "music" else sp.pev)(p["x"], Pv, NFFT=nfv, **kw)
+            return np.asarray(o.psd), np.asarray(o.eigenvalues)
+
+    out = []
+    name = {"eigen": "eigen(method=%r)" % method, "func": method, "class": "p" + method}[entry]
+    base, Sb = call(P, nfft, NSIG=nsig)
+    # the python-int result itself against the definition (noisy records: the tolerance of the 'class' oracle on the same data)
+    if p.get("noisy"):
+        ref = ref_psd(x, P, nsig, nfft, method)[0]
+        want = ref_fold(ref, real, nfft) if iscls else ref
+        if relw(base, want) > 1e-7:
+            out.append("%s: pseudo-spectrum differs from the definition with signal dimension %d by %.2e" % (name, nsig, relw(base, want)))
+
+    def check(what, got, ref=None, Sref=None):
+        ref = base if ref is None else ref
+        Sref = Sb if Sref is None else Sref
+        if not _same_psd(got[0], ref) or not np.array_equal(got[1], Sref):
+            g = np.asarray(got[0], dtype=float)
+            out.append("%s with %s differs from the call with the python int / float of the same value (P=%d, NSIG=%d, NFFT=%d, N=%d): %d of "
+                       "%d values finite, %d expected" % (name, what, P, nsig, nfft, N, int(np.sum(np.isfinite(g))), g.size,
+                                                          int(np.sum(np.isfinite(ref)))))
+
+    def attempt(what, fn, ref=None, Sref=None):
+        try:
+            got = fn()
+        except Exception as e:
+            out.append("%s with %s raised %s (%s); the python int / float of the same value is accepted" % (name, what, type(e).__name__, str(e)[:80]))
+            return
+        check(what, got, ref, Sref)
+
+    for t in NSIG_TYPES:
+        if _fits(nsig, t):
+            attempt("NSIG=%s(%d)" % (t, nsig), lambda: call(P, nfft, NSIG=_ty(nsig, t)))
+    for t in P_TYPES:
+        if _fits(P, t, "P", N=N):
+            attempt("P=%s(%d)" % (t, P), lambda: call(_ty(P, t), nfft, NSIG=nsig))
+    for t in NFFT_TYPES:
+        if _fits(nfft, t, "nfft", cls=iscls):
+            attempt("NFFT=%s(%d)" % (t, nfft), lambda: call(P, _ty(nfft, t), NSIG=nsig))
+    # all three at once (P in the signed companion of an unsigned type)
+    for t in NSIG_TYPES:
+        tp = t.replace("uint", "int")
+        if tp in P_TYPES and _fits(nsig, t) and _fits(P, tp, "P", N=N) and _fits(nfft, t, "nfft", cls=iscls):
+            attempt("P=%s, NSIG=%s, NFFT=%s" % (tp, t, t), lambda: call(_ty(P, tp), _ty(nfft, t), NSIG=_ty(nsig, t)))
+    if len(out) > 6:
+        return out[:6] + ["(%d more)" % (len(out) - 6)]
+    # a dimension sweep in the dtype p['sweep']: every k of numpy.arange(0, P, dtype) against the python int k
+    for k in np.arange(0, P, dtype=p["sweep"]):
+        if int(k) == nsig:
+            continue
+        try:
+            ri = call(P, nfft, NSIG=int(k))
+        except Exception as e:
+            out.append("%s raised %r for NSIG=%d" % (name, e, int(k)))
+            break
+        n0 = len(out)
+        attempt("NSIG=%d as an element of numpy.arange(0, %d, dtype=%s)" % (int(k), P, p["sweep"]), lambda: call(P, nfft, NSIG=k), ri[0], ri[1])
+        if len(out) > n0:
+            break
+    # the threshold in other numeric types (1 vs 1.0, numpy.float32(1.5), ...): the result of the python float of the same value
+    for v in (1, 1.5, 3, 10, p.get("thr", 2.0)):
+        try:
+            rf = call(P, nfft, threshold=float(v))
+        except Exception as e:
+            out.append("%s raised %r for threshold=%r" % (name, e, float(v)))
+            break
+        for t in THR_TYPES:
+            d = t.split(":")[-1]
+            if d in ("int", "int64", "uint8", "int8") and v != int(v):
+                continue
+            tv = _ty(v, t)
+            if float(tv) != float(v):
+                rf2 = call(P, nfft, threshold=float(tv))     # (float16 / float32 round the random threshold)
+            else:
+                rf2 = rf
+            attempt("threshold=%s(%r)" % (t, v), lambda: call(P, nfft, threshold=tv), rf2[0], rf2[1])
+    # NSIG as a float with an integral value: rejected (the unchanged tree raises TypeError), never a different pseudo-spectrum
+    for t in FLOAT_TYPES:
+        try:
+            got = call(P, nfft, NSIG=_ty(float(nsig), t))
+        except (TypeError, ValueError):
+            continue
+        except Exception as e:
+            out.append("%s with NSIG=%s(%d.0) raised %s instead of TypeError / ValueError" % (name, t, nsig, type(e).__name__))
+            continue
+        check("NSIG=%s(%d.0) (accepted)" % (t, nsig), got)
+    # out-of-range dimensions in numpy types are rejected as the python ints are
+    for t in NSIG_TYPES[:10] + ["0d:int64", "arange:uint8"]:
+        for v in (P, P + 2, -1):
+            if not _fits(v, t):
+                continue
+            try:
+                call(P, nfft, NSIG=_ty(v, t))
+                out.append("%s accepted NSIG=%s(%d) (P=%d)" % (name, t, v, P))
+            except ValueError:
+                pass
+            except Exception as e:
+                out.append("%s raised %s for NSIG=%s(%d) instead of ValueError" % (name, type(e).__name__, t, v))
+    return out[:8]
+
+
 # ---- argument validation and the threshold rule: implementation vs model ---------------------------------------------
 
 def impl_valid(p):
     sp = _sp()
     kw = {}
+    ty = p.get("types") or {}
     if p["nsig"] is not None:
-        kw["NSIG"] = p["nsig"]
+        kw["NSIG"] = _ty(p["nsig"], ty.get("nsig"))
     if p["thr"] is not None:
-        kw["threshold"] = p["thr"]
-    sp.eigen(np.asarray(p["x"]), p["P"], method=p["method"], criteria=p["crit"], NFFT=32, **kw)
+        kw["threshold"] = _ty(p["thr"], ty.get("threshold"))
+    sp.eigen(np.asarray(p["x"]), _ty(p["P"], ty.get("P")), method=p["method"], criteria=p["crit"], NFFT=_ty(32, ty.get("nfft")), **kw)
     return []
 
 
@@ -556,12 +811,24 @@ def _key(p):
     if "S" in p:
         return "thr|%s|%s" % (p["thr"], hash(np.asarray(p["S"]).tobytes()) & 0xFFFFFF)
     if "crit" in p:
-        return "valid|%s|%s|%s|%s|%d|%d" % (p["method"], p["nsig"], p["thr"], p["crit"], len(p["x"]), p["P"])
+        return "valid|%s|%s|%s|%s|%d|%d|%s" % (p["method"], p["nsig"], p["thr"], p["crit"], len(p["x"]), p["P"], _types_text(p))
     x = np.asarray(p["x"])
-    more = "".join("|%s=%s" % (k, p[k]) for k in ("criteria", "threshold", "sbf", "fs", "container", "peaks", "default_nfft")
+    more = ("|" + _types_text(p) if p.get("types") else "") + ("|%s|%s" % (p["entry"], p["sweep"]) if "entry" in p else "")
+    more += "".join("|%s=%s" % (k, p[k]) for k in ("criteria", "threshold", "sbf", "fs", "container", "peaks", "default_nfft")
                    if p.get(k) not in (None, False))
     return "%s|%d|%s|%s|%s|%s|%d%s" % (p.get("method"), len(x), p.get("P"), p.get("nsig", p.get("K")), p.get("nfft"),
                                      np.iscomplexobj(x), hash(x.tobytes()) & 0xFFFFFF, more)
+
+
+def _type_tags(p):
+    ty = p.get("types") or {}
+    t = []
+    for k in sorted(ty):
+        if ty[k]:
+            d = ty[k].split(":")[-1]
+            fam = "unsigned" if d.startswith("uint") else "signed" if d.startswith("int") and d != "int" else d
+            t.append("type:%s:%s%s" % (k, fam, " (0-d array)" if ty[k].startswith("0d:") else " (arange element)" if ty[k].startswith("arange:") else ""))
+    return t
 
 
 def _tags(p):
@@ -576,6 +843,9 @@ def _tags(p):
             t.append("%s:%s" % (k, p[k]))
     if p.get("sbf"):
         t.append("scale_by_freq")
+    t.extend(_type_tags(p))
+    if "entry" in p:
+        t.extend(["argtype:" + p["entry"], "argtype:" + ("noisy" if p.get("noisy") else "noiseless tones"), "argtype:sweep " + p["sweep"]])
     if "K" in p:
         K, h = p["K"], p["nfft"] // 2
         t.append("tones:K%s" % ("<=4" if K <= 4 else "5..9" if K <= 9 else "10..15"))
@@ -593,7 +863,7 @@ def _tags(p):
 
 
 # kinds whose parameters describe the content of x: no derived degenerate records
-NO_DEGEN = {"tones"}
+NO_DEGEN = {"tones", "argtype"}
 
 KINDS = {
     "psd": {"impl": impl_psd, "model": model_psd, "rtol": 1e-7, "atol": 1e-300, "key": _key, "tags": _tags},
@@ -601,13 +871,16 @@ KINDS = {
     "class": {"impl": impl_class, "model": model_class, "post": post_class, "oracle": oracle_class, "rtol": 1e-12, "atol": 0.0,
               "key": _key, "tags": _tags},
     "tones": {"oracle": oracle_tones, "key": _key, "tags": _tags},
+    # P / NSIG / NFFT / threshold in every numeric type the unchanged tree accepts, against the python-int call
+    "argtype": {"oracle": oracle_argtype, "key": _key, "tags": _tags},
     "validate": {"oracle": oracle_validate, "key": _key,
                  "tags": lambda p: ["validate"] + (["validate:aic%smdl" % ("!=" if p["n_aic"] != p["n_mdl"] else "==")] if "n_aic" in p else [])
                  + (["validate:aic,mdl,P-1 all differ"] if "n_aic" in p and len({p["n_aic"], p["n_mdl"], p["P"] - 1}) == 3 else [])},
     # which arguments eigen() rejects (ValueError), which sizes it asserts on, and the threshold rule itself, against the model's
     # eigenValidate / signalSpace (the objects of theorems eigenValidate_rules, nsig_rules)
     "valid": {"impl": impl_valid, "model": model_valid, "strict_errors": True, "rtol": 0, "atol": 0, "key": _key,
-              "tags": lambda p: ["valid:" + ("nsig" if p["nsig"] is not None else "-") + ("+thr" if p["thr"] is not None else "")]},
+              "tags": lambda p: ["valid:" + ("nsig" if p["nsig"] is not None else "-") + ("+thr" if p["thr"] is not None else "")]
+              + ["valid:" + t for t in _type_tags(p)]},
     "thr": {"impl": impl_thr, "model": model_thr, "rtol": 0, "atol": 0, "key": _key, "tags": lambda p: ["thr"]},
     # aic_eigen / mdl_eigen and NSIG = argmin + 1 against Model/EigenCrit.lean (float mode: logarithms); the values are compared
     # at 1e-9 of the largest one, the dimension exactly (the generated spectra have a clear minimum: see `_crit_cases`)
@@ -893,3 +1166,117 @@ def gen(rng, nrng, tier):
                 break
         _sc, x, P, a, m = best
         yield ("validate", {"x": x, "P": P, "n_aic": a, "n_mdl": m})
+    # ---- the numeric TYPE of the integer arguments (appended: the cases above are drawn exactly as before) ---------------------
+    yield from _typed_cases(nrng, tier)
+
+
+def _tone_record(nrng, i, nfft, int8_P=False):
+    """noiseless on-grid record as in the first 'tones' loop: K 1..4 complex exponentials or 1..2 real sinusoids, bins >= 3 apart"""
+    cplx = bool(i % 3)
+    h = nfft // 2
+    if cplx:
+        K = int(nrng.integers(1, 5))
+        bins = _spread_bins(nrng, K, nfft, 3)
+    else:
+        K2 = int(nrng.integers(1, 3))
+        pos = []
+        while len(pos) < K2:
+            b = int(nrng.integers(3, h - 3))
+            if all(abs(b - c) >= 3 for c in pos):
+                pos.append(b)
+        pos = sorted(pos)
+        bins = pos + [-b for b in pos]
+        K = 2 * K2
+    for _attempt in range(40):
+        P = int(nrng.integers(K + 1, 17))
+        N = int(nrng.integers(2 * P, 129))
+        if int8_P:
+            N = int(nrng.integers(2 * P, min(127, P + 63) + 1))      # N - P and 2 (N - P) stay inside int8
+        x = _tones(nrng, bins, nfft, cplx, N)
+        if _conditioned(x, P, K):
+            break
+    return x, P, K, bins
+
+
+def _typed_cases(nrng, tier):
+    """P / NSIG / NFFT (and the threshold) handed over as numpy scalars of every integer width and signedness, as elements of an
+    integer `arange` (an order sweep), as 0-d arrays -- the types the unchanged tree accepts (see NSIG_TYPES .. THR_TYPES)"""
+    q = tier == "quick"
+    # (1) noiseless tones, main clause: one argument typed, or all three (the unsigned NSIG types come first in the rotation)
+    order = UNSIGNED + [t for t in NSIG_TYPES if t not in UNSIGNED]
+    for i in range(36 if q else 150):
+        t = order[i % len(order)]
+        which = ["nsig", "all", "nsig", "nfft", "P"][(i // len(order) + i) % 5] if i >= len(UNSIGNED) else "nsig"
+        nfft = [64, 63, 128, 45, 96, 255, 256][i % 7]
+        if which in ("nfft", "all") and not _fits(nfft, t):
+            nfft = [64, 63, 96, 45][i % 4]
+        tp = t.replace("uint", "int")
+        if tp not in P_TYPES:
+            tp = P_TYPES[i % len(P_TYPES)]
+        x, P, K, bins = _tone_record(nrng, i, nfft, int8_P=(tp == "int8"))
+        types = {"nsig": t} if which == "nsig" else {"nfft": t} if which == "nfft" else {"P": tp} if which == "P" else {"P": tp, "nsig": t, "nfft": t}
+        yield ("tones", {"x": x, "P": P, "K": K, "bins": bins, "nfft": nfft, "types": types})
+    # (2) noisy records against the Lean model (eigenpsd / eigenclass) and the definition, typed arguments
+    for i in range(30 if q else 120):
+        cplx = bool(i % 2)
+        t = order[(i + 3) % len(order)]
+        tp = t.replace("uint", "int")
+        if tp not in P_TYPES:
+            tp = P_TYPES[i % len(P_TYPES)]
+        P = int(nrng.integers(3, 13))
+        N = int(nrng.integers(2 * P, 129)) if i % 7 else int(nrng.integers(P + 101, P + 140))
+        if tp == "int8":
+            N = int(nrng.integers(2 * P, min(127, P + 63) + 1))
+        x = _noisy(nrng, N, cplx, freqs=_rand_freqs(nrng, cplx))
+        nfft = [32, 33, 64, 49, 128, 255, 256][i % 7]
+        if not _fits(nfft, t):
+            nfft = [32, 33, 64, 49][i % 4]
+        method = ["music", "ev"][(i // 2) % 2]
+        nsig = int(nrng.integers(0, P))
+        types = [{"nsig": t}, {"P": tp, "nsig": t, "nfft": t}, {"nsig": t, "nfft": t}][i % 3]
+        yield ("psd", {"x": x, "P": P, "nsig": nsig, "nfft": nfft, "method": method, "types": types})
+        ct = dict(types)
+        if ct.get("nfft", "").startswith("0d:") and i % 2:
+            ct.pop("nfft")
+        sel = [{"nsig": max(1, nsig)}, {"nsig": nsig}, {"threshold": [3.0, 1.5, 10.0, 1.0][(i // 3) % 4], "nsig": None}][i % 3]
+        if "threshold" in sel:
+            ct.pop("nsig", None)
+            ct["threshold"] = THR_TYPES[(i // 3) % len(THR_TYPES)]
+            if ct["threshold"].split(":")[-1] in ("int", "int64", "uint8", "int8") and sel["threshold"] != int(sel["threshold"]):
+                ct["threshold"] = "float32"
+        yield ("class", {"x": x, "P": P, "nfft": nfft, "method": method, "fs": [1.0, 3.0][i % 2], "sbf": bool((i // 3) % 2), "types": ct, **sel})
+    # (3) argument validation against the model's eigenValidate, NSIG / threshold / P / NFFT in numpy types
+    for i in range(30 if q else 120):
+        P = int(nrng.integers(2, 9))
+        N = int(nrng.integers(P + 1, 3 * P + 4)) if i % 5 == 0 else int(nrng.integers(2 * P, 40))
+        x = _noisy(nrng, N, bool(i % 2))
+        t = order[(i + 5) % len(order)]
+        nsig = [1, P - 1, P, P + 2, -1, 0, None][int(nrng.integers(0, 7))]
+        if nsig is not None and not _fits(nsig, t):
+            t = ["int8", "int64", "0d:int64", "int16"][i % 4]
+        thr = [None, None, None, 3.0, 1.0, 0.5, -2.0, 1e9][int(nrng.integers(0, 8))]
+        tt = ["float32", "int", "0d:float64", "longdouble"][i % 4]
+        if tt == "int" and thr is not None and thr != int(thr):
+            tt = "float32"
+        types = {"nsig": t if nsig is not None else None, "threshold": tt if thr is not None else None,
+                 "P": [None, "int16", "0d:int64", "intp"][(i // 2) % 4], "nfft": [None, "uint8", "0d:uint8", "int64"][(i // 3) % 4]}
+        yield ("valid", {"x": x, "P": P, "method": ["music", "ev"][i % 2], "nsig": nsig, "thr": thr, "crit": ["aic", "mdl"][(i // 2) % 2],
+                         "types": {k: v for k, v in types.items() if v}})
+    # (4) one record, one entry point: every accepted type of every argument against the python-int call, a typed dimension
+    # sweep, typed thresholds, integral floats, out-of-range values in numpy types
+    for i in range(12 if q else 24):
+        noisy = bool(i % 2)
+        nfft = [64, 63, 120, 45, 96, 255, 256, 100][i % 8]
+        if noisy:
+            cplx = bool((i // 2) % 2)
+            P = int(nrng.integers(3, 13))
+            N = int(nrng.integers(2 * P, 129)) if i % 3 else int(nrng.integers(2 * P, min(127, P + 63) + 1))
+            x = _noisy(nrng, N, cplx, freqs=_rand_freqs(nrng, cplx))
+            nsig = int(nrng.integers(0, P))
+            extra = {"noisy": True}
+        else:
+            x, P, nsig, bins = _tone_record(nrng, i // 2, nfft, int8_P=(i % 3 == 0))
+            extra = {"bins": bins}
+        yield ("argtype", {"x": x, "P": P, "nsig": nsig, "nfft": nfft, "method": ["music", "ev"][(i // 2) % 2],
+                           "entry": ["func", "class", "eigen"][i % 3], "sweep": ["uint8", "uint16", "int8", "uint64", "int64", "uint32"][i % 6],
+                           "thr": float(np.round(nrng.uniform(1.0, 50.0), 3)), **extra})
